@@ -25,7 +25,7 @@ CHECKS = {
    design="4/C01"),
  "C10": dict(
    technique="property-based testing (proptest) with a constructive grammar generator that records the class of each format string while building it, exhaustive enumeration of all strings of length <=5/6 over a 14-symbol alphabet against an independent reference tokenizer, exhaustive built-in id sweep, and generated style tables read end-to-end through files",
-   text="The classifier is checked as a function of a string language (20k quick / 1M thorough grammar strings + 0.6M / 8M exhaustive short strings) and end-to-end: custom ids in any order, XFs referencing built-in and custom ids, unused XFs, cellStyleXfs and dxf decoys, numeric cells untyped / t=n / cached formula, both date systems, prefixed parts. Currently the file-level part covers xlsx; xls/xlsb columns are added as their encoders land.",
+   text="The classifier is checked as a function of a string language (20k quick / 1M thorough grammar strings + 0.6M / 8M exhaustive short strings) and end-to-end: custom ids in any order, XFs referencing built-in and custom ids, unused XFs, cellStyleXfs and dxf decoys, numeric cells untyped / t=n / cached formula, both date systems, prefixed parts. The file-level part covers xlsx, xls (FORMAT/XF records, NUMBER/RK/MULRK/FORMULA) and xlsb (BrtFmt/BrtXF, RK/Real/FmlaNum).",
    note="Trusts the grammar generator's recorded class and the reference tokenizer (model/numfmt.rs). Locale-dependent built-in ids are only required to agree between the two tables.",
    design="4/C10"),
  "C15": dict(
@@ -35,7 +35,7 @@ CHECKS = {
    design="4/C15"),
  "C19": dict(
    technique="property-based round-trip testing (proptest): generated Unicode strings x storage forms encoded by the harness writers, exact string equality at the cell",
-   text="Exploration of the string space (XML specials, edge/repeated spaces, TAB/LF/CR, combining marks, astral characters, empty, up to 32767 units) crossed with storage forms. xlsx: shared/inline/t=str, plain/rich runs/phonetic, entities/hex/decimal references/CDATA, empty shared items of four kinds before and between used items (index alignment). Other formats are added as their encoders land.",
+   text="Exploration of the string space (XML specials, edge/repeated spaces, TAB/LF/CR, combining marks, astral characters, empty, up to 32767 units) crossed with storage forms. xlsx: shared/inline/t=str, plain/rich runs/phonetic, entities/hex/decimal references/CDATA, empty shared items of four kinds before and between used items (index alignment). xlsb (BrtCellSt / BrtCellIsst with rich+phonetic / BrtFmlaString), xls (SST with runs and ExtRst, LABEL, FORMULA+STRING, 8/16-bit) and ods (text:s, text:tab, text:line-break, several paragraphs, spans) likewise; long strings (to 32767 units) in the thorough tier.",
    note="Trusts the encoders' escaping routines. XML formats are restricted to XML 1.0 characters; _xHHHH_ escapes are not generated.",
    design="4/C19"),
  "C02": dict(
@@ -60,9 +60,49 @@ CHECKS = {
    design="4/C13"),
  "C17": dict(
    technique="property-based round-trip testing (proptest): generated merge regions and table parts written by the harness XLSX encoder, every getter compared with the declared geometry and the table data range with the model values",
-   text="0-12 merge references per sheet anywhere up to XFD1048576, several sheets, attribution by sheet; 0-3 tables per sheet inside / straddling / outside the used range or on an empty sheet, header 0/1/absent, totals 0/1/absent, column names with XML specials; owned and borrowed table getters. The xls MERGEDCELLS part is added with the BIFF encoder.",
+   text="0-12 merge references per sheet anywhere up to XFD1048576, several sheets, attribution by sheet; 0-3 tables per sheet inside / straddling / outside the used range or on an empty sheet, header 0/1/absent, totals 0/1/absent, column names with XML specials; owned and borrowed table getters. xls: MERGEDCELLS records (several per sheet, up to 1026 refs) compared the same way.",
    note="Trusts enc/xlsx.rs. Tables have >= 1 data row; table parts are referenced as ../tables/tableN.xml.",
    design="4/C17"),
+ "C03": dict(
+   technique="property-based round-trip/differential testing (proptest) through a harness-written XLSB (BIFF12 record framing + ZIP) encoder; the model gives the expected value of every record kind; uninterpreted records (unknown ids, multi-byte ids and lengths) are interleaved; each number is stored under a generated choice of BrtCellRk / BrtCellReal / BrtFmlaNum",
+   text="Generated workbooks with every cell and formula record kind under generated BrtRowHdr sequences (gaps, empty rows, boundary rows/columns), shared strings with rich/phonetic payload, uninterpreted records between, before and after cells, error-valued and string-valued formulas; bounds, every value and used_cells are compared with the model through worksheet_range and worksheet_range_ref. Exploration: sheets up to a few dozen cells, three sheets.",
+   note="Trusts enc/xlsb.rs (varint framing, record layouts written from MS-XLSB) and its expected-value table. Parts use the names every producer writes; BrtWsDim present; rows ascend.",
+   design="4/C03"),
+ "C06": dict(
+   technique="structure-aware fault-injection fuzzing (proptest-generated fault lists applied to nine valid base documents built by the harness encoders: field-level boundary values, truncation, record length lies, FAT/DIFAT/directory edits, XML attribute edits, repeat counts, OVBA chunk edits, plus raw byte mutations); oracle = every reader and every read call returns, under fork-per-case isolation with a counting allocator (memory limit), thread-CPU clock (time limit) and panic capture with overflow checks on; saved regression corpus of one input per historical panic signature",
+   text="Each case assembles a valid xlsx / xlsx with shared formulas / xlsb / xls / xls with split SST / ods / xlsm with VBA / xls with VBA / bare compound file, applies 1-3 faults aimed at a structural element (so that inputs get past the container checks), and drives the complete read API of all four readers, auto-detection and the VBA reader in a forked child with debug assertions and overflow checks enabled. Verdicts: panic (with the source line as signature), allocation beyond 256 MiB live for inputs <= 1 MiB (refused by the allocator, attributed to the owner of the largest block), > 10 s CPU or no return within the case timeout twice. 6k cases quick, 400k thorough, plus the 80-input regression corpus. Exploration: no coverage guidance; faults are drawn from a fixed menu.",
+   note="Three recorded known findings (dense Range allocation, identified by the allocating call site from_sparse / new / ods get_range) are tolerated by signature and printed as KNOWN-FINDING; any other signature is a violation. Time limits are CPU-time based with a wall-clock confirmation; a harness failure to isolate exits 2.",
+   design="4/C06"),
+ "C07": dict(
+   technique="model-based (stateful) property testing with proptest: generated histories of read calls (values, refs, formulas, merges, tables, VBA, metadata, header-row changes, unknown names) run against one long-lived workbook; oracle = the same call on a freshly opened workbook with only the header-row option replayed; plus the agreement relations between access paths after every step",
+   text="Histories of 1-25 calls over workbooks of all four formats (and the same bytes opened through auto-detection) built by the harness encoders, with several sheets, formulas, merges, tables and a VBA project. Each result is rendered and compared with the fresh-workbook result; worksheet_range vs worksheet_range_ref vs worksheet_range_at vs worksheets() are compared where the statement requires, unknown names must fail. Exploration: small workbooks, 3k histories quick / 60k thorough.",
+   note="Results are compared through Debug rendering (errors only by the fact of failing). Header rows far above the data are not generated (dense Range, see C06 known findings).",
+   design="4/C07"),
+ "C08": dict(
+   technique="property-based metamorphic testing (proptest): one generated logical sheet encoded in all four formats by the harness encoders; for generated header rows n the read is compared with the default read (same value at every absolute position with row >= n, nothing from rows < n, start row exactly n or empty range), then the option is changed back",
+   text="Sheets whose first used row lies anywhere from 0 to a few hundred, with interior gaps and a used column range not starting at A; header rows below, at, inside and beyond the data, sequences of option changes (None -> n -> m -> FirstNonEmptyRow) on one workbook. xlsx, xlsb, xls and ods in every case.",
+   note="Trusts the four encoders. Column extents are constrained only through values (eager and lazy readers pad differently).",
+   design="4/C08"),
+ "C14": dict(
+   technique="property-based round-trip testing (proptest): generated formula ASTs encoded to BIFF8 and BIFF12 Ptg token streams by a harness-written encoder (and as text for xlsx/ods); oracle = the harness's own A1 renderer over the AST; exhaustive sweep of column lettering over all 16384 columns through a hook and through xls/xlsb files",
+   text="ASTs over references (all four $ combinations, boundary rows/columns incl. IV/XFD), areas, 3-D references and areas through EXTERNSHEET/XTI indirection, ints, reals, strings (8/16-bit), bools, errors, unary/binary operators, parentheses, fixed- and variable-arity functions, defined names; formulas placed at generated cells among constants; position of every formula and emptiness of every other cell asserted in xls, xlsb, xlsx, ods.",
+   note="Trusts enc/ptg.rs and model/formula.rs. Sheet names in 3-D refs are plain identifiers; operands that are operations carry explicit PtgParen.",
+   design="4/C14"),
+ "C16": dict(
+   technique="property-based round-trip testing (proptest): generated workbook metadata (sheet order, names with XML-special / non-ASCII / astral characters, visibility, kind, defined names, date system) written by the four harness encoders and compared field by field with sheet_names / sheets_metadata / defined_names; a date-styled probe cell in every sheet checks the date-system flag",
+   text="1-6 sheets per workbook, any mixture of visible / hidden / very hidden and worksheet / chart / dialog / macro sheets as far as each format expresses them, 0-5 defined names (text in xlsx/ods, absolute 3-D token references in xls/xlsb, 8- and 16-bit names), 1900 and 1904 systems with prefixed workbookPr in xlsx.",
+   note="Trusts the encoders. Sheet names follow Excel's rules; every workbook has one visible worksheet.",
+   design="4/C16"),
+ "C18": dict(
+   technique="property-based round-trip testing (proptest) with a harness-written MS-OVBA compressor that takes the tokenisation as a generated parameter (literal/copy choices, non-greedy matches, raw chunks, offsets and lengths at the bit-width limits per position, multi-chunk sources); oracle = the source bytes, cross-checked by the harness's reference decompressor; project level: generated dir streams (module names, offsets, code page, references) inside generated compound files inside xlsm / xlsb / xls",
+   text="Decompression is inverted over 4k (quick) / 400k (thorough) containers from sources with long repeats, runs, incompressible stretches and sizes around 4096-byte multiples; the project check builds 1-5 modules with junk before the text offset, MBCS names and text in three code pages, stream names different from module names, reference records of the three kinds, and reads them through vba_project() of each format and VbaProject::new.",
+   note="Trusts enc/ovba.rs (self-checked by decompress_ref on every case; self-check failures exit 2). An incompressible partial chunk longer than 3640 bytes has no exact encoding and is skipped (counted).",
+   design="4/C18"),
+ "C20": dict(
+   technique="property-based testing (proptest), both directions: generated encrypted containers (EncryptedPackage + EncryptionInfo in generated compound-file layouts; FILEPASS of the XOR / RC4 / CryptoAPI kinds at generated positions of the globals substream; ods manifests with encryption-data on generated entries) must yield the format's password error; the same generators with the marker removed must open",
+   text="Positive: xlsx/xlsb readers over compound files whose layout is drawn from the C13 generator, xls with FILEPASS after BOF among generated globals records, ods with manifest:encryption-data on content.xml or other entries. Negative: the unencrypted twins and workbooks containing the literal text 'EncryptedPackage' / a 0x2F record id inside payloads must not be reported as protected.",
+   note="Encrypted payloads are random bytes (the reader must decide before parsing them).",
+   design="4/C20"),
 }
 
 NOT_APPLICABLE = {
